@@ -1056,92 +1056,227 @@ Proof.
   destruct (N.ltb_spec k0 (N.of_nat (length asg))); [lia|]. congruence.
 Qed.
 
-Definition LInv (a : ast) (l : lst) : Prop :=
-  forall X g, In g (l_chk (getL X l)) -> is_seq X (g_ty g) = true ->
-              lookup (e_asg (getE X a)) (l_tab (getL X l)) (g_seq g) = Some (cont g).
-(* what is covered: every sequenced emission after Close except closeSessionRequests *)
-Definition LCov (post : list event) (l : lst) : Prop :=
-  forall X g, In g (emitted X post) -> is_seq X (g_ty g) = true -> g_ty g <> ty_close_req -> In g (l_chk (getL X l)).
+(* per-event obligation after Close: what an emitted datagram acknowledges had been delivered to its emitter *)
+Definition PevL (pre p1 : list event) (e : event) : Prop :=
+  match e with
+  | ES X g => forall i, (N.of_nat i < g_unack g)%N -> delivered X (pre ++ p1) i
+  | _ => True
+  end.
+Definition histL (pre post : list event) : Prop := forall p1 e p2, post = p1 ++ e :: p2 -> PevL pre p1 e.
+
+Lemma histL_snoc : forall pre post e, histL pre post -> PevL pre post e -> histL pre (post ++ [e]).
+Proof.
+  intros pre post e H HP p1 e' p2 E. destruct p2 as [|y b'].
+  - apply app_inj_tail in E. destruct E as [<- <-]. exact HP.
+  - destruct (@exists_last _ (y :: b') ltac:(discriminate)) as (b2 & z & Eb). rewrite Eb in E.
+    change (p1 ++ e' :: b2 ++ [z]) with (p1 ++ (e' :: b2) ++ [z]) in E. rewrite app_assoc in E.
+    apply app_inj_tail in E. destruct E as [E _]. eapply H. exact E.
+Qed.
+
+Record LInv (a : ast) (pre post : list event) (l : lst) : Prop := mkLInv {
+  li_tab : forall X g, In g (l_chk (getL X l)) -> is_seq X (g_ty g) = true ->
+             lookup (e_asg (getE X a)) (l_tab (getL X l)) (g_seq g) = Some (cont g);
+  li_cov : forall X g, In g (emitted X post) -> is_seq X (g_ty g) = true -> g_ty g <> ty_close_req -> In g (l_chk (getL X l));
+  li_emit : forall X, l_emit (getL X l) = emitted X post;
+  li_nr : forall X i, i < N.to_nat (l_nr (getL X l)) -> delivered X (pre ++ post) i;
+  li_buf : forall X j, In j (l_buf (getL X l)) -> delivered X (pre ++ post) (N.to_nat j);
+  li_hist : histL pre post
+}.
 
 Lemma getL_setL_same : forall X v l, getL X (setL X v l) = v.
 Proof. destruct X; reflexivity. Qed.
 Lemma getL_setL_other : forall X v l, getL (negb X) (setL X v l) = getL (negb X) l.
 Proof. destruct X; reflexivity. Qed.
 
-Lemma late_step_inv : forall a post l e l', LInv a l /\ LCov post l -> late_step a l e = Some l' ->
-  LInv a l' /\ LCov (post ++ [e]) l'.
+Lemma adv_spec : forall fuel nr buf j, (nr <= j < adv fuel nr buf)%N -> In j buf.
 Proof.
-  intros a post l e l' [HI HC] H.
-  assert (Hframe : forall e0, (forall Y, ev_emit Y e0 = []) -> LInv a l /\ LCov (post ++ [e0]) l).
-  { intros e0 He. split; [exact HI|]. intros Y g Hg. rewrite emitted_snoc_other in Hg by apply He. apply HC. exact Hg. }
-  destruct e as [S b | S g | S k | S b | ]; cbn [late_step] in H;
-    try (injection H as <-; apply Hframe; intros Y; reflexivity).
-  assert (HCo : forall l2, getL (negb S) l2 = getL (negb S) l ->
-                (forall g0, In g0 (l_chk (getL S l)) -> In g0 (l_chk (getL S l2))) ->
-                (is_seq S (g_ty g) = true -> g_ty g <> ty_close_req -> In g (l_chk (getL S l2))) -> LCov (post ++ [ES S g]) l2).
-  { intros l2 E1 E2 E3 Y g0 Hg0 Hs0 Hn0. destruct (side_cases Y S) as [-> | ->].
-    - rewrite snd_emit_common in Hg0. apply in_app_or in Hg0. destruct Hg0 as [Hg0 | [<- | []]]; [apply E2; apply HC; assumption | apply E3; assumption].
-    - rewrite E1. rewrite emitted_snoc_other in Hg0 by (cbn; rewrite eqb_negb; reflexivity). apply HC; assumption. }
-  destruct (is_seq S (g_ty g)) eqn:Hseq.
-  - destruct (l_flag (getL S l) && N.eqb (g_ty g) ty_close_req) eqn:Hex.
-    + injection H as <-. split; [exact HI|]. apply HCo; auto.
-      intros _ Hne. apply andb_true_iff in Hex. destruct Hex as [_ Hex]. apply N.eqb_eq in Hex. contradiction.
-    + destruct (lookup (e_asg (getE S a)) (l_tab (getL S l)) (g_seq g)) as [c|] eqn:Hl.
-      * destruct (content_eqb c (cont g)) eqn:Hc; [|discriminate]. apply content_eqb_eq in Hc. subst c. injection H as <-. split.
-        -- intros Y g0 Hg0 Hs0. destruct (side_cases Y S) as [-> | ->].
-           ++ rewrite getL_setL_same in *. cbn [l_tab l_chk] in *. destruct Hg0 as [<- | Hg0]; [exact Hl | apply HI; assumption].
-           ++ rewrite getL_setL_other in *. apply HI; assumption.
-        -- apply HCo; [apply getL_setL_other | rewrite getL_setL_same; cbn; auto | rewrite getL_setL_same; cbn; auto].
-      * injection H as <-. split.
-        -- intros Y g0 Hg0 Hs0. destruct (side_cases Y S) as [-> | ->].
-           ++ rewrite getL_setL_same in *. cbn [l_tab l_chk] in *. destruct Hg0 as [<- | Hg0].
-              ** apply lookup_fresh. exact Hl.
-              ** eapply lookup_keep; [exact Hl | apply HI; assumption].
-           ++ rewrite getL_setL_other in *. apply HI; assumption.
-        -- apply HCo; [apply getL_setL_other | rewrite getL_setL_same; cbn; auto | rewrite getL_setL_same; cbn; auto].
-  - destruct (is_ack S (g_ty g)); [|discriminate]. injection H as <-. split; [exact HI|].
-    apply HCo; auto. intros Hc. discriminate.
+  induction fuel as [|f IH]; intros nr buf j H; cbn [adv] in H; [lia|].
+  destruct (existsb (N.eqb nr) buf) eqn:E; [|lia].
+  destruct (N.eq_dec j nr) as [-> | Hne].
+  - apply existsb_exists in E. destruct E as (x & Hx & Ex). apply N.eqb_eq in Ex. subst x. exact Hx.
+  - apply (IH (N.succ nr)). lia.
 Qed.
 
-Lemma late_run_inv : forall a post2 post1 l l', LInv a l /\ LCov post1 l -> late_run a l post2 = Some l' ->
-  LInv a l' /\ LCov (post1 ++ post2) l'.
+Lemma delivered_assoc : forall X pre post e i, delivered X (pre ++ post) i -> delivered X (pre ++ post ++ [e]) i.
+Proof. intros. rewrite app_assoc. apply delivered_mono. assumption. Qed.
+
+(* a step that changes only one endpoint's record in a way that keeps the tables, and does not emit *)
+Lemma late_frame : forall a pre post l e, LInv a pre post l -> (forall Y, ev_emit Y e = []) -> (forall X k, e <> ER X k) ->
+  LInv a pre (post ++ [e]) l.
 Proof.
-  intros a. induction post2 as [|e t IH]; intros post1 l l' HI H; cbn [late_run] in H.
+  intros a pre post l e [T C E N B H] He Hr. constructor; auto.
+  - intros Y g Hg. rewrite emitted_snoc_other in Hg by apply He. apply C. exact Hg.
+  - intros Y. rewrite emitted_snoc_other by apply He. apply E.
+  - intros Y i Hi. apply delivered_assoc. auto.
+  - intros Y j Hj. apply delivered_assoc. auto.
+  - apply histL_snoc; [exact H|]. destruct e; cbn; auto. specialize (He X). cbn in He. rewrite eqb_same in He. discriminate.
+Qed.
+
+Opaque adv.
+Lemma late_step_inv : forall a pre post l e l', AInv pre a -> LInv a pre post l -> late_step a l e = Some l' ->
+  LInv a pre (post ++ [e]) l'.
+Proof.
+  intros a pre post l e l' HA HI H. pose proof HI as [T C E N B HH].
+  destruct e as [S b | S g | S k | S b | ]; cbn [late_step] in H;
+    try (injection H as <-; apply late_frame; [exact HI | intros Y; reflexivity | intros; discriminate]).
+  - (* ES *)
+    destruct (N.leb_spec (g_unack g) (l_nr (getL S l))) as [Hack | Hack]; cbn [negb] in H; [|discriminate].
+    assert (HP : PevL pre post (ES S g)). { cbn. intros i Hi. apply N. lia. }
+    (* everything common to the accepting branches: a new record for side S with the same l_nr, l_buf and l_emit ++ [g] *)
+    assert (Hgen : forall tab fl chk,
+              (forall g0, In g0 chk -> is_seq S (g_ty g0) = true -> lookup (e_asg (getE S a)) tab (g_seq g0) = Some (cont g0)) ->
+              (forall g0, In g0 (l_chk (getL S l)) -> In g0 chk) ->
+              (is_seq S (g_ty g) = true -> g_ty g <> ty_close_req -> In g chk) ->
+              LInv a pre (post ++ [ES S g])
+                   (setL S (mkL1 tab fl chk (l_emit (getL S l) ++ [g]) (l_nr (getL S l)) (l_buf (getL S l))) l)).
+    { intros tab fl chk H1 H2 H3. constructor.
+      - intros Y g0 Hg0 Hs0. destruct (side_cases Y S) as [-> | ->].
+        + rewrite getL_setL_same in *. cbn [l_tab l_chk] in *. auto.
+        + rewrite getL_setL_other in *. apply T; assumption.
+      - intros Y g0 Hg0 Hs0 Hn0. destruct (side_cases Y S) as [-> | ->].
+        + rewrite getL_setL_same. cbn [l_chk]. rewrite snd_emit_common in Hg0. apply in_app_or in Hg0.
+          destruct Hg0 as [Hg0 | [<- | []]]; [apply H2; apply C; assumption | apply H3; assumption].
+        + rewrite getL_setL_other. rewrite emitted_snoc_other in Hg0 by (cbn; rewrite eqb_negb; reflexivity). apply C; assumption.
+      - intros Y. destruct (side_cases Y S) as [-> | ->].
+        + rewrite getL_setL_same. cbn [l_emit]. rewrite snd_emit_common, E. reflexivity.
+        + rewrite getL_setL_other. rewrite emitted_snoc_other by (cbn; rewrite eqb_negb; reflexivity). apply E.
+      - intros Y i Hi. apply delivered_assoc. destruct (side_cases Y S) as [-> | ->].
+        + rewrite getL_setL_same in Hi. cbn [l_nr] in Hi. auto.
+        + rewrite getL_setL_other in Hi. auto.
+      - intros Y j Hj. apply delivered_assoc. destruct (side_cases Y S) as [-> | ->].
+        + rewrite getL_setL_same in Hj. cbn [l_buf] in Hj. auto.
+        + rewrite getL_setL_other in Hj. auto.
+      - apply histL_snoc; assumption. }
+    destruct (is_seq S (g_ty g)) eqn:Hseq.
+    + destruct (l_flag (getL S l) && N.eqb (g_ty g) ty_close_req) eqn:Hex.
+      * injection H as <-. apply Hgen; auto.
+        intros _ Hne. apply andb_true_iff in Hex. destruct Hex as [_ Hex]. apply N.eqb_eq in Hex. contradiction.
+      * destruct (lookup (e_asg (getE S a)) (l_tab (getL S l)) (g_seq g)) as [c|] eqn:Hl.
+        -- destruct (content_eqb c (cont g)) eqn:Hc; [|discriminate]. apply content_eqb_eq in Hc. subst c. injection H as <-.
+           apply Hgen; [|intros; right; assumption | intros; left; reflexivity].
+           intros g0 [<- | Hg0] Hs0; [exact Hl | apply T; assumption].
+        -- injection H as <-. apply Hgen; [|intros; right; assumption | intros; left; reflexivity].
+           intros g0 [<- | Hg0] Hs0; [apply lookup_fresh; exact Hl | eapply lookup_keep; [exact Hl | apply T; assumption]].
+    + destruct (is_ack S (g_ty g)); [|discriminate]. injection H as <-. apply Hgen; auto. intros Hc. discriminate.
+  - (* ER *)
+    set (pre_emit := e_emit (getE (negb S) a)) in *. set (post_emit := l_emit (getL (negb S) l)) in *.
+    destruct (N.ltb_spec k (N.of_nat (length pre_emit + length post_emit))) as [Hk | Hk]; [|discriminate].
+    match type of H with match ?sel with _ => _ end = _ => destruct sel as [g|] eqn:Hg end; [|discriminate].
+    assert (HEp : pre_emit = emitted (negb S) pre).
+    { destruct HA as [_ HS]. destruct (HS (negb S)) as [(_ & S2 & _) _]. exact S2. }
+    assert (Hnth : nth_error (emitted (negb S) (pre ++ post)) (N.to_nat k) = Some g).
+    { rewrite emitted_app, <- HEp, <- (E (negb S)). fold post_emit.
+      destruct (N.ltb_spec k (N.of_nat (length pre_emit))) as [Hlt | Hge].
+      - rewrite nth_error_app1 by lia. exact Hg.
+      - rewrite nth_error_app2 by lia. exact Hg. }
+    assert (Hfr : LInv a pre (post ++ [ER S k]) l).
+    { constructor; auto.
+      - intros Y g0 Hg0. rewrite emitted_snoc_other in Hg0 by reflexivity. apply C. exact Hg0.
+      - intros Y. rewrite emitted_snoc_other by reflexivity. apply E.
+      - intros Y i Hi. apply delivered_assoc. auto.
+      - intros Y j Hj. apply delivered_assoc. auto.
+      - apply histL_snoc; [exact HH | exact I]. }
+    destruct (is_seq (negb S) (g_ty g)) eqn:Hseq; [|injection H as <-; exact Hfr].
+    injection H as <-.
+    assert (Hnew : delivered S (pre ++ post ++ [ER S k]) (N.to_nat (g_seq g))).
+    { exists (pre ++ post), k, [], g. rewrite app_assoc. auto. }
+    assert (Hbuf : forall j, In j (g_seq g :: l_buf (getL S l)) -> delivered S (pre ++ post ++ [ER S k]) (N.to_nat j)).
+    { intros j [<- | Hj]; [exact Hnew | apply delivered_assoc; auto]. }
+    destruct Hfr as [T' C' E' N' B' HH']. constructor; auto.
+    + intros Y g0 Hg0 Hs0. destruct (side_cases Y S) as [-> | ->].
+      * rewrite getL_setL_same in *. cbn [l_tab l_chk] in *. apply T; assumption.
+      * rewrite getL_setL_other in *. apply T; assumption.
+    + intros Y g0 Hg0 Hs0 Hn0. destruct (side_cases Y S) as [-> | ->].
+      * rewrite getL_setL_same. cbn [l_chk]. apply C'; assumption.
+      * rewrite getL_setL_other. apply C'; assumption.
+    + intros Y. destruct (side_cases Y S) as [-> | ->].
+      * rewrite getL_setL_same. cbn [l_emit]. apply E'.
+      * rewrite getL_setL_other. apply E'.
+    + intros Y i Hi. destruct (side_cases Y S) as [-> | ->].
+      * rewrite getL_setL_same in Hi. cbn [l_nr] in Hi.
+        destruct (Nat.lt_ge_cases i (N.to_nat (l_nr (getL S l)))) as [Hlt | Hge]; [apply N'; exact Hlt|].
+        rewrite <- (Nat2N.id i). apply Hbuf.
+        match type of Hi with context [adv ?f ?n ?b] => apply (adv_spec f n b) end. split; lia.
+      * rewrite getL_setL_other in Hi. apply N'. exact Hi.
+    + intros Y j Hj. destruct (side_cases Y S) as [-> | ->].
+      * rewrite getL_setL_same in Hj. cbn [l_buf] in Hj. apply Hbuf. exact Hj.
+      * rewrite getL_setL_other in Hj. apply B'. exact Hj.
+Qed.
+
+Transparent adv.
+
+Lemma late_run_inv : forall a pre post2 post1 l l', AInv pre a -> LInv a pre post1 l -> late_run a l post2 = Some l' ->
+  LInv a pre (post1 ++ post2) l'.
+Proof.
+  intros a pre. induction post2 as [|e t IH]; intros post1 l l' HA HI H; cbn [late_run] in H.
   - injection H as <-. rewrite app_nil_r. exact HI.
   - destruct (late_step a l e) as [l1|] eqn:E; [|discriminate].
     replace (post1 ++ e :: t) with ((post1 ++ [e]) ++ t) by (rewrite <- app_assoc; reflexivity).
-    eapply IH; [|exact H]. eapply late_step_inv; eauto.
+    eapply IH; [exact HA | | exact H]. eapply late_step_inv; eauto.
+Qed.
+
+Lemma late_init_inv : forall a pre, AInv pre a -> LInv a pre [] (late_init a).
+Proof.
+  intros a pre [_ HS]. constructor.
+  - intros X g Hg. destruct X; contradiction.
+  - intros X g Hg. contradiction.
+  - intros X. destruct X; reflexivity.
+  - intros X i Hi. rewrite app_nil_r. destruct (HS X) as [_ (R1 & _)]. apply R1.
+    destruct X; cbn [getL late_init l_s l_c late_init1 l_nr getE] in *; rewrite Nat2N.id in Hi; exact Hi.
+  - intros X j Hj. rewrite app_nil_r. destruct (HS X) as [_ (_ & R2 & _)].
+    assert (Hin : In j (map (fun e => N.of_nat (fst e)) (e_rbuf (getE X a)))) by (destruct X; exact Hj).
+    apply in_map_iff in Hin. destruct Hin as ([i c] & <- & Hic). cbn [fst]. rewrite Nat2N.id. eapply R2. exact Hic.
+  - intros p1 e p2 E. destruct p1; discriminate.
+Qed.
+
+Lemma late_final_inv : forall pre post l, late_final pre post = Some l -> exists a, accept pre = inl a /\ LInv a pre post l.
+Proof.
+  intros pre post l H. unfold late_final in H. destruct (accept pre) as [a | r] eqn:Ea; [|discriminate].
+  exists a. split; [reflexivity|]. pose proof (accept_inv _ _ Ea) as HA.
+  apply (late_run_inv a pre post [] (late_init a) l HA (late_init_inv a pre HA) H).
 Qed.
 
 (* one sequence number, one content - for every sequenced segment (data and control) emitted before Close and every
-   checked one emitted after it; checked = all of them except the stateless closeSessionRequest replies that follow
-   an endpoint's own close segment (late_covers: in particular every data segment, open/close response and each
-   endpoint's first close segment) *)
+   checked one emitted after it (see late_covers for what is checked) *)
 Lemma accept_closed_retx_same : forall pre post l, late_final pre post = Some l ->
   forall X g1 g2, In g1 (emitted X pre ++ l_chk (getL X l)) -> In g2 (emitted X pre ++ l_chk (getL X l)) ->
   is_seq X (g_ty g1) = true -> is_seq X (g_ty g2) = true -> g_seq g1 = g_seq g2 ->
   g_ty g1 = g_ty g2 /\ g_frag g1 = g_frag g2 /\ g_pay g1 = g_pay g2.
 Proof.
-  intros pre post l H X g1 g2 H1 H2 Q1 Q2 E. unfold late_final in H.
-  destruct (accept pre) as [a | r] eqn:Ea; [|discriminate].
-  destruct (late_run_inv a post [] l0 l) as [HL _]; [|exact H|].
-  { split; [intros Y g Hg; destruct Y; contradiction | intros Y g Hg; contradiction]. }
+  intros pre post l H X g1 g2 H1 H2 Q1 Q2 E. destruct (late_final_inv _ _ _ H) as (a & Ea & [T _ _ _ _ _]).
   apply accept_inv in Ea. destruct Ea as [_ HS]. destruct (HS X) as [(_ & _ & S3 & _) _].
   assert (Hb : forall g, In g (emitted X pre ++ l_chk (getL X l)) -> is_seq X (g_ty g) = true ->
                          lookup (e_asg (getE X a)) (l_tab (getL X l)) (g_seq g) = Some (cont g)).
   { intros g Hg Hs. apply in_app_or in Hg. destruct Hg as [Hg | Hg].
     - apply lookup_asg. apply S3; assumption.
-    - apply HL; assumption. }
+    - apply T; assumption. }
   pose proof (Hb _ H1 Q1) as N1. pose proof (Hb _ H2 Q2) as N2. rewrite E in N1. rewrite N1 in N2.
   unfold cont in N2. injection N2 as -> -> ->. auto.
 Qed.
 
 Lemma late_covers : forall pre post l, late_final pre post = Some l ->
   forall X g, In g (emitted X post) -> is_seq X (g_ty g) = true -> g_ty g <> ty_close_req -> In g (l_chk (getL X l)).
+Proof. intros pre post l H. destruct (late_final_inv _ _ _ H) as (a & _ & [_ C _ _ _ _]). exact C. Qed.
+
+(* acks stay safe while closing: every datagram emitted after Close acknowledges only segment numbers all of which had
+   been delivered to its emitter before (deliveries before and after Close count) *)
+Lemma accept_closed_ack_safe : forall pre post l, late_final pre post = Some l ->
+  forall p1 X g p2, post = p1 ++ ES X g :: p2 -> forall i, (N.of_nat i < g_unack g)%N -> delivered X (pre ++ p1) i.
 Proof.
-  intros pre post l H. unfold late_final in H. destruct (accept pre) as [a | r]; [|discriminate].
-  destruct (late_run_inv a post [] l0 l) as [_ HC]; [|exact H|exact HC].
-  split; [intros Y g Hg; destruct Y; contradiction | intros Y g Hg; contradiction].
+  intros pre post l H p1 X g p2 E. destruct (late_final_inv _ _ _ H) as (a & _ & [_ _ _ _ _ HH]). apply (HH _ _ _ E).
+Qed.
+
+(* the full sentence of C13 - no sequence number ever carries two contents - is FALSE of the faithful model: the
+   underlay's stateless closeSessionRequest for a session it no longer has copies its seq from the peer's unAckSeq *)
+Lemma seq_reuse_after_close : exists pre post g1 g2,
+  accept_closed pre post = true /\ In g1 (emitted false (pre ++ post)) /\ In g2 (emitted false (pre ++ post)) /\
+  is_seq false (g_ty g1) = true /\ is_seq false (g_ty g2) = true /\ g_seq g1 = g_seq g2 /\ g_ty g1 <> g_ty g2.
+Proof.
+  exists [ EW false [1;2;3]%N; ES false (mkDg 2 0 0 0 0 [1;2;3]%N); ER true 0%N; ES true (mkDg 3 0 0 0 0 []);
+           EW false [7]%N; ES false (mkDg 6 1 0 4096 0 [7]%N) ],
+         [ ES false (mkDg 4 2 0 0 0 []); ES false (mkDg 4 1 0 0 0 []) ],
+         (mkDg 6 1 0 4096 0 [7]%N), (mkDg 4 1 0 0 0 []).
+  vm_compute. repeat split; auto 10; discriminate.
 Qed.
 
 (* C13 for the LTS, spelled out for control segments: the close session request (like every sequenced segment)
@@ -1317,6 +1452,51 @@ Proof.
   unfold input_data_nocheck, input_body. cbn [r_buf r_queue length].
   pose proof capN_pos.
   destruct (Nat.leb_spec capN 0); [lia|]. rewrite Nat.leb_refl. reflexivity.
+Qed.
+
+(* ------------------------------------------------------------------ Part 1d: partial Writes *)
+
+Lemma queue_frags_spec : forall k cs ns, let '(ns', q) := queue_frags ns cs k in
+  ns' = ns + length q /\ map fst q = seq ns (length q) /\ map snd q = firstn k cs.
+Proof.
+  induction k as [|k IH]; intros cs ns.
+  - destruct cs; cbn; repeat split; try reflexivity; lia.
+  - destruct cs as [|c cs]; [cbn; repeat split; try reflexivity; lia|]. cbn [queue_frags].
+    specialize (IH cs (S ns)). destruct (queue_frags (S ns) cs k) as [ns' q]. destruct IH as (A & B & C).
+    cbn [length map seq fst snd firstn]. rewrite B, C. repeat split; try reflexivity; lia.
+Qed.
+
+(* whatever Writes happened and wherever each stopped: the numbers in the send queue are ns, ns+1, ... without a
+   hole, and the counter stands exactly behind the last one *)
+Lemma write_all_gapless : forall ops ns, let '(ns', q) := write_all ns ops in
+  ns' = ns + length q /\ map fst q = seq ns (length q).
+Proof.
+  induction ops as [|[cs k] t IH]; intros ns; cbn [write_all].
+  - cbn. split; [lia | reflexivity].
+  - pose proof (queue_frags_spec k cs ns) as H1. destruct (queue_frags ns cs k) as [ns1 q1]. destruct H1 as (A1 & B1 & _).
+    specialize (IH ns1). destruct (write_all ns1 t) as [ns2 q2]. destruct IH as (A2 & B2).
+    rewrite app_length, map_app, seq_app, B1, B2, A1. split; [lia | reflexivity].
+Qed.
+
+(* a partial Write is k Write steps of the transition system: every theorem about reachable states covers it *)
+Lemma partial_write_run : forall cs k s, reach s -> exists s',
+  run s (map LWrite (firstn k cs)) s' /\ reach s' /\ assigned s' = assigned s ++ firstn k cs /\
+  sent_hi s' = sent_hi s /\ fwd s' = fwd s /\ next_recv s' = next_recv s.
+Proof.
+  intros cs k. generalize (firstn k cs) as l. induction l as [|c l IH]; intros s HR.
+  - exists s. rewrite app_nil_r. repeat split; auto. apply run_nil.
+  - set (s1 := mkSt (assigned s ++ [c]) (una s) (sent_hi s) (win s) (fwd s) (back s) (next_recv s) (rbuf s) (got s) (rd s) (lost s)).
+    assert (H1 : lstep s (LWrite c) s1) by apply s_write.
+    destruct (IH s1 (reach_step _ _ _ HR H1)) as (s' & R & HR' & A & B & C & D).
+    exists s'. cbn [map]. split; [econstructor; eauto|]. split; [exact HR'|]. cbn in A, B, C, D.
+    rewrite A, <- app_assoc. repeat split; auto.
+Qed.
+
+(* reserving all numbers before the loop loses those of the fragments that are never built *)
+Lemma reserve_up_front_leaves_hole : exists ops, let '(ns', q) := write_all_reserve 0 ops in
+  map fst q <> seq 0 (length q) /\ ns' <> length q.
+Proof.
+  exists [([mkC 6 2 []; mkC 6 1 []; mkC 6 0 []], 1); ([mkC 6 0 []], 1)]. vm_compute. split; intros H; discriminate.
 Qed.
 
 (* ------------------------------------------------------------------ non-vacuity *)
